@@ -7,6 +7,7 @@ RV=/tmp/rv
 rm -rf $RV/verif; mkdir -p $RV
 git -C /repo worktree remove --force $RV/repo 2>/dev/null; git -C /repo worktree prune
 git -C /repo worktree add -q --detach $RV/repo HEAD || exit 2
+START_HEAD=$(git -C /repo rev-parse --short HEAD)
 rsync -a --exclude replays --exclude .git /verif/ $RV/verif/
 mkdir -p $RV/verif/replays
 OUT=$RV/results.jsonl; : > $OUT
@@ -35,7 +36,7 @@ import json
 rows=[json.loads(l) for l in open("$OUT")]
 head=open("/dev/null")
 import subprocess
-h=subprocess.run(["git","-C","/repo","rev-parse","--short","HEAD"],capture_output=True,text=True).stdout.strip()
+h="$START_HEAD"
 json.dump({"repo_head": h, "note": "own_check_rc / neighbour_rc: 1 = VIOLATION reported (caught), 0 = not caught, 2 = harness error; patches that no longer apply to HEAD were written against an earlier tree (their mechanism was usually touched by a later repair)", "rows": rows}, open("/verif/seeded/REVALIDATION.json","w"), indent=1)
 print("caught by own check:", sum(r["own_check_rc"]==1 for r in rows), "by neighbour/thorough:", sum(r["neighbour_rc"]==1 for r in rows), "not applicable to HEAD:", sum(not r["patch_applies_to_head"] for r in rows), "missed:", [r["id"] for r in rows if r["patch_applies_to_head"] and r["own_check_rc"]!=1 and r["neighbour_rc"]!=1])
 EOF
